@@ -34,6 +34,7 @@ type c08KNO struct {
 
 type c08Case struct {
 	Theme, DataYml, FM bool
+	FMOther            bool     // without FM: the page still HAS a front-matter block, which does not define the key
 	Calls              []string // sequence over: fill-map, fill-struct, fill-ptr, fill-empty, assign, new, load (last load/new decides the rendering template)
 	Key                string   // "k" or "K"
 	Tagged             bool     // with Key "K": the struct field K carries the JSON tag "k" and is addressed by its Go name
@@ -60,6 +61,8 @@ func c08Eval(cs c08Case) *Case {
 	page := body
 	if cs.FM {
 		page = "---\n" + key + ": fm\n---\n" + body
+	} else if cs.FMOther {
+		page = "---\nunrelated: u\nzz: 9\n---\n" + body
 	}
 	put("page.vuego", page)
 	put("other.vuego", "<p>other</p>")
@@ -290,6 +293,9 @@ func runC08(r *Run, replay *Case) {
 				for _, po := range posts {
 					calls := append(append(append([]string{}, pre...), "load-page"), po...)
 					r.Add(c08Eval(c08Case{Theme: mask&1 != 0, DataYml: mask&2 != 0, FM: mask&4 != 0, Calls: calls, Key: key}))
+					if mask&4 == 0 {
+						r.Add(c08Eval(c08Case{Theme: mask&1 != 0, DataYml: mask&2 != 0, FMOther: true, Calls: calls, Key: key}))
+					}
 				}
 			}
 		}
